@@ -50,6 +50,9 @@ func (drs *DelegRewardStore) AddRewardsBalance(delegator keys.Address, amount *b
 	}
 
 	err = drs.set(key, amt.Plus(*amount))
+	if err != nil {
+		return err
+	}
 	err = drs.set(keyTotal, amtTotal.Plus(*amount))
 	return err
 }
